@@ -107,11 +107,26 @@ class ProbeRun:
         self.extra_inc = extra_inc
         self.n_batches = 0
         self.n_isolated = 0
+        self.n_unverified = 0
         self.loose = []
 
     def run(self, probes, tag="b"):
         probes = list(probes)
-        batches = [probes[i:i + self.batch] for i in range(0, len(probes), self.batch)]
+        if any("dedup_key" in p for p in probes):
+            # probes sharing a template specialisation whose static_assert fires only once per TU go to different batches
+            batches, keys = [], []
+            for p in probes:
+                k = p.get("dedup_key")
+                for b, ks in zip(batches, keys):
+                    if len(b) < self.batch and (k is None or k not in ks):
+                        b.append(p)
+                        ks.add(k)
+                        break
+                else:
+                    batches.append([p])
+                    keys.append({k})
+        else:
+            batches = [probes[i:i + self.batch] for i in range(0, len(probes), self.batch)]
         self.n_batches += len(batches)
         cname = "clang" if "clang" in self.compiler else "gcc"
 
@@ -127,6 +142,10 @@ class ProbeRun:
         for b, (rc, rejected, loose) in zip(batches, results):
             if loose:
                 self.loose += loose[:5]
+            # errors that mention no probe line are normally follow-on diagnostics of an already attributed
+            # instantiation (gcc prints the instantiation context once); they force a batch-wide re-check
+            # only when nothing at all could be attributed.
+            loose = loose if (rc != 0 and not rejected) else []
             for p in b:
                 rej = p["id"] in rejected
                 out[p["id"]] = {"rejected": rej, "msgs": rejected.get(p["id"], [])[:3], "isolated": False}
@@ -134,9 +153,13 @@ class ProbeRun:
                 if loose or (exp == "accept" and rej) or (exp == "reject" and not rej):
                     todo.append(p)
         # isolation re-check of every disagreement (and of whole batches with unattributable errors)
-        if len(todo) > 400:
-            # something systematic; isolating 400 is enough to demonstrate, keep it bounded
-            todo = todo[:400]
+        if len(todo) > 1200:
+            # something systematic; isolating 1200 is enough to demonstrate.  Verdicts that could not
+            # be re-checked alone are marked unverified and must not be reported by callers.
+            for p in todo[1200:]:
+                out[p["id"]]["unverified"] = True
+            self.n_unverified += len(todo) - 1200
+            todo = todo[:1200]
 
         def iso(p):
             rc, rejected, loose = compile_batch(self.preamble, [(p["id"], p["text"])], self.compiler, self.std,
